@@ -374,8 +374,27 @@ def run(ctx, repo, tier):
         ctx.check(ok, "FLOW", "C12.all_taus.flag", "get_all_tau_transition_matrices passes its window-mode flag on unchanged",
                   fa.where, ast.unparse(c), witness="mode flag is not forwarded")
         t = c.args[0] if c.args else kw.get("tau")
-        ctx.check(isinstance(t, ast.Name) and t.id == "tau", "FLOW", "C12.all_taus.tau", "each tau of the input array is "
-                  "passed to get_one_tau_transition_matrix", fa.where, ast.unparse(c), witness="tau argument differs")
+        # the argument must be the element variable of a loop over the `taus` parameter
+        tau_param = fa.params()[1] if len(fa.params()) > 1 else "taus"
+        elem_vars = set()
+        for lp in ast.walk(fa.node):
+            if isinstance(lp, (ast.For, ast.comprehension)):
+                it_, tg = lp.iter, lp.target
+                if isinstance(it_, ast.Call) and isinstance(it_.func, ast.Name) and it_.func.id == "enumerate" and it_.args and \
+                        isinstance(tg, ast.Tuple) and len(tg.elts) == 2:
+                    it_, tg = it_.args[0], tg.elts[1]
+                if isinstance(it_, ast.Name) and it_.id == tau_param and isinstance(tg, ast.Name):
+                    elem_vars.add(tg.id)
+        if isinstance(t, ast.Name) and t.id in elem_vars:
+            ctx.ok("FLOW", "C12.all_taus.tau", "each tau of the input array is passed to get_one_tau_transition_matrix", fa.where, ast.unparse(c))
+        elif isinstance(t, ast.Subscript) and isinstance(t.value, ast.Name) and t.value.id == tau_param:
+            ctx.ok("FLOW", "C12.all_taus.tau", "taus are passed by index from the input array", fa.where, ast.unparse(c))
+        elif isinstance(t, ast.Constant) or (isinstance(t, ast.Name) and t.id not in elem_vars and t.id != tau_param and not elem_vars):
+            ctx.violate("FLOW", "C12.all_taus.tau", "the lag passed to get_one_tau_transition_matrix is not the current element of the "
+                        "input array", fa.where, ast.unparse(c), witness=ast.unparse(t) if t is not None else "no argument")
+        else:
+            ctx.inconclusive("FLOW", "C12.all_taus.tau", "lag argument not recognised as an element of the input array", fa.where,
+                             witness=ast.unparse(t) if t is not None else "no argument")
     ctx.require_instances("LIN", 10, "linear-arithmetic obligations on the window code")
     ctx.require_instances("MIRROR", 4, "count emissions")
     ctx.trust(*META["trusted"])
